@@ -60,7 +60,7 @@ Variant(pa, pb) ==
 \* action, their final strategy is empty): 2 is a dead Player 1 state, 3 a dead Player 2 state
 DeadPlayers ==
     [n |-> 6, owner |-> <<PR, P1, P2, PR, PR, PR>>, reward |-> <<1, 2, 0, 3, 0, 0>>,
-     tr |-> << <<Tr("", 1, 2), Tr("", 1, 3), Tr("", 2, 4)>>, <<Tr("c", 0, 5), Tr("d", 0, 5)>>, <<Tr("u", 0, 2)>>,
+     tr |-> << <<Tr("", 1, 2), Tr("", 1, 3), Tr("", 2, 4)>>, <<Tr("construe", 0, 5), Tr("falsework", 0, 5)>>, <<Tr("nullify", 0, 2)>>,
                <<Tr("", 1, 6)>>, <<Tr("", 1, 5)>>, <<Tr("", 1, 6)>> >>, final |-> <<6>>]
 
 Pool == << [kind |-> "ok",        tg |-> Tagged(Simple)],
@@ -83,7 +83,9 @@ Pool == << [kind |-> "ok",        tg |-> Tagged(Simple)],
            [kind |-> "malformed", tg |-> SetSlot(Tagged(Simple), 1, 1, 2, PInt(3))] >>
 
 NameSets == { <<"game_a", "game_b", "game_c">>, <<"g1", "x_2", "robot_40_w5">>,
-              <<"b", "a", "a_b_1">> }
+              <<"b", "a", "a_b_1">>,
+              \* names that contain the JSON words true / false / null
+              <<"nullable_coin_2", "construe", "falsework_1">> }
 
 \* input file names: underscores, digits, and stems ending in letters of ".py"
 FileStems == <<"in_", "robot_1_w2_l", "paper_games_", "x">>
